@@ -65,7 +65,8 @@ func (h *History) source(k int) string {
 	for i := 0; i < h.NMeths; i++ {
 		fmt.Fprintf(&sb, "func (o *Obj) Meth%d(a int) int {\n%s\to.N += %d\n\treturn a*1000 + %d*100 + 50 + %d\n}\n\n", i, pad(), i+1, i, k)
 	}
-	sb.WriteString("func Tag() int {\n\treturn " + fmt.Sprint(k) + "\n}\n\n")
+	// the version number is a named constant: a reload gives the name a new value, and code compiled by the reload reads it
+	fmt.Fprintf(&sb, "const version = %d\n\nfunc Tag() int {\n\treturn version\n}\n\n", k)
 	// a function-valued package variable WITH an initialiser: every load re-initialises it, so after a reload both the
 	// host (Call by name, Func of the value read now) and script code reach the new literal
 	fmt.Fprintf(&sb, "var stepv = func(a int) int {\n\treturn a*1000 + 900 + %d\n}\n\nfunc CallStepv(a int) {\n\tfmt.Println(\"stepv\", stepv(a))\n}\n\n", k)
